@@ -1,7 +1,7 @@
 (* C14: the compile-now / stub / raise decision of the builders and the arguments of the stub's re-build are the
    ones of the source (kernel K114a, translated from builder.py on every run). *)
 From Coq Require Import List Arith Bool ZArith.
-From Verif Require Import Regex PyK LazyModel LazyProofs LazyK114a LazyK114b.
+From Verif Require Import Regex PyK LazyModel LazyProofs LazyK114a LazyK114b LazyPostpone.
 From VerifGen Require Import K114a K114b.
 Import ListNotations.
 Close Scope Z_scope.
@@ -101,3 +101,20 @@ Example C14_apc_false_fails_at_creation :
     [Out (Node 0 (MN false 0 false 0) None []); Out (Node 1 (MN false 0 false 0) None []);
      Out (Node 0 (MN true 0 false 0) None [])].
 Proof. split; [exact (proj1 apc_false_fails_at_creation)|exact apc_false_lazy_still_postpones]. Qed.
+
+(* ---- class creation and Config.allow_postponed_evaluation (LazyPostpone.v) ---- *)
+
+(* postponing allowed on every class: no class statement raises UnresolvedTypeReferenceError - in any state, any
+   definition order, any mode, with any nesting compiled on demand *)
+Theorem C14_creation_never_unresolved : forall F d5,
+  (forall k, c_apc (cls F k) = true) ->
+  forall fuel st c, snd (step F d5 fuel st (Define c)) <> Exc EUnresolved.
+Proof. exact creation_never_unresolved. Qed.
+Print Assumptions C14_creation_never_unresolved.
+
+(* postponing forbidden on a non-lazy class compiled at creation whose references are unresolved: the class statement raises *)
+Theorem C14_creation_unresolved_raises : forall F d5 fuel st c fu fp r,
+  c_fmts (cls F c) = (fu, fp) :: r -> c_lazy (cls F c) = false -> c_apc (cls F c) = false -> unresolved F st c = true ->
+  snd (step F d5 fuel st (Define c)) = Exc EUnresolved.
+Proof. exact creation_unresolved_raises. Qed.
+Print Assumptions C14_creation_unresolved_raises.
